@@ -344,6 +344,8 @@ def run(prog, rep):
     # the field codecs the interpreter treats as atoms are symmetric themselves (primitive summary)
     from .. import primitives as PR
     rep.attempt(PR.tdftype_primitives, prog, rep)
+    from ..staging import staging_dtypes
+    rep.attempt(staging_dtypes, prog, rep)
     rep.attempt(PR.string_codec, prog, rep)
     rep.attempt(PR.date_codec, prog, rep)
     # decoders attach items to their channel through the add method: an explicit channel must be honoured
